@@ -8,6 +8,8 @@ package main
 //  (c) concurrent Wrapper.Put / Wrapper.Get calls against a store that yields to a scheduler at
 //      every Get/Put/Del; all interleavings (2 threads; 3 threads sampled in quick, all in thorough)
 //  (d) the same store behind a real dht.Server: inbound put/get datagrams and Server.Put
+//  (e) store faults, in (b) and (d): chosen Get/Put/Del calls of the underlying Store return an error
+//      that is not ErrItemNotFound (lines b44fput b44fget b44fwput b44fwget b44flput; model Bep44Fault.v)
 //
 // Every line is `op args => observed`; the model runner recomputes the part after `=>`.
 // `edtable` lines carry the ed25519 verdicts (computed here with crypto/ed25519 on the buffer built
@@ -20,6 +22,7 @@ import (
 	"context"
 	"crypto/ed25519"
 	"crypto/sha1"
+	"errors"
 	"fmt"
 	"math"
 	"net"
@@ -71,6 +74,7 @@ func b44Engine(seed uint64, tier string, args []string) {
 	}
 	e.pure()
 	e.sequential()
+	e.sequentialFaults()
 	e.concurrent()
 	e.serverContained()
 }
@@ -448,6 +452,59 @@ type b44ystore struct {
 	mem   *bep44.Memory
 	mu    sync.Mutex
 	byGid map[int64]*b44thr
+	flt   b44fault // armed faults (see arm)
+	hits  []string // the calls that were failed since arm
+}
+
+// which calls of the underlying store fail while armed: the call returns errB44Fault (not
+// ErrItemNotFound, not a krpc.Error) before it touches the memory store
+type b44fault struct{ get, put, del bool }
+
+func (f b44fault) any() bool { return f.get || f.put || f.del }
+func (f b44fault) String() string {
+	s := ""
+	for _, x := range []struct {
+		on bool
+		n  string
+	}{{f.get, "get"}, {f.put, "put"}, {f.del, "del"}} {
+		if x.on {
+			if s != "" {
+				s += "+"
+			}
+			s += x.n
+		}
+	}
+	if s == "" {
+		return "none"
+	}
+	return s
+}
+
+var errB44Fault = errors.New("verif: injected fault of the underlying store")
+
+func (s *b44ystore) arm(f b44fault) {
+	s.mu.Lock()
+	s.flt, s.hits = f, nil
+	s.mu.Unlock()
+}
+
+// ends the fault window; returns the calls that were failed ("" when none was made)
+func (s *b44ystore) disarm() string {
+	s.mu.Lock()
+	defer s.mu.Unlock()
+	h := strings.Join(s.hits, "+")
+	s.flt, s.hits = b44fault{}, nil
+	return h
+}
+
+func (s *b44ystore) failing(kind string) bool {
+	s.mu.Lock()
+	defer s.mu.Unlock()
+	on := (kind == "get" && s.flt.get) || (kind == "put" && s.flt.put) || (kind == "del" && s.flt.del)
+	if on {
+		s.hits = append(s.hits, kind)
+	}
+	return on
 }
 
 func b44curGid() int64 {
@@ -471,9 +528,27 @@ func (s *b44ystore) yield(kind string) {
 	th.arrive <- kind
 	<-th.resume
 }
-func (s *b44ystore) Get(t bep44.Target) (*bep44.Item, error) { s.yield("yG"); return s.mem.Get(t) }
-func (s *b44ystore) Put(i *bep44.Item) error                 { s.yield("yP"); return s.mem.Put(i) }
-func (s *b44ystore) Del(t bep44.Target) error                { s.yield("yD"); return s.mem.Del(t) }
+func (s *b44ystore) Get(t bep44.Target) (*bep44.Item, error) {
+	s.yield("yG")
+	if s.failing("get") {
+		return nil, errB44Fault
+	}
+	return s.mem.Get(t)
+}
+func (s *b44ystore) Put(i *bep44.Item) error {
+	s.yield("yP")
+	if s.failing("put") {
+		return errB44Fault
+	}
+	return s.mem.Put(i)
+}
+func (s *b44ystore) Del(t bep44.Target) error {
+	s.yield("yD")
+	if s.failing("del") {
+		return errB44Fault
+	}
+	return s.mem.Del(t)
+}
 
 // goroutine id -> wait state, from the runtime's own dump
 func b44goStates() map[int64]string {
@@ -689,6 +764,217 @@ func (c *b44case) getOracles(t [20]byte, it *bep44.Item, before, after []bep44.V
 func (c *b44case) age(d time.Duration) {
 	bep44.VerifAge(c.mem, d)
 	emit("b44age %d => ok", int64(d))
+}
+
+// ---------------------------------------------------------------- store faults
+
+// Wrapper.Put while the calls named by f fail
+func (c *b44case) fput(x *b44it, f b44fault) string {
+	c.nop++
+	before := bep44.VerifDump(c.mem)
+	c.ys.arm(f)
+	got := b44errStr(c.w.Put(x.item()))
+	hits := c.ys.disarm()
+	after := bep44.VerifDump(c.mem)
+	emit("b44fput %d %d %s => %s | %s", b2i(f.get), b2i(f.put), x.args(), got, b44dumpStr(after))
+	c.faultPutOracles(x, got, before, after, fmt.Sprintf("op#%d Wrapper.Put faults=%s", c.nop, f), hits)
+	return got
+}
+
+// hits: the store calls of this put that returned the injected error.  Such a put was not able to
+// read the stored version / to write the new one: it must not be reported as accepted and must leave
+// the store as it was.  Without a hit the put is an ordinary one.
+func (c *b44case) faultPutOracles(x *b44it, got string, before, after []bep44.VerifEntry, where, hits string) {
+	if hits == "" {
+		c.putOracles(x, got, before, after, where)
+		return
+	}
+	w := fmt.Sprintf("case=%s %s failed-calls=%s item=%s", c.name, where, hits, x.brief())
+	if !b44sameDump(before, after) {
+		c.e.fire("C13", "store-fault:put-changed-store:"+hits, "%s got=%s", w, got)
+	}
+	if got == "ok" {
+		c.e.fire("C13", "store-fault:put-accepted:"+hits, "%s", w)
+		c.putOracles(x, got, before, after, where) // and everything demanded of an accepted put
+		return
+	}
+	c.storeOracle(after, where)
+	c.seqDecreased(before, after, "seq-decreased:store-fault", w)
+}
+
+// Wrapper.Get while the calls named by f fail
+func (c *b44case) fget(t [20]byte, f b44fault) {
+	c.nop++
+	before := bep44.VerifDump(c.mem)
+	c.ys.arm(f)
+	it, err := c.w.Get(t)
+	hits := c.ys.disarm()
+	after := bep44.VerifDump(c.mem)
+	res := "notfound"
+	if err == nil && it != nil {
+		res = "found " + b44itemStr(it, bep44.VerifCreated(it))
+	} else if err != bep44.ErrItemNotFound {
+		res = "error"
+	}
+	emit("b44fget %d %d %s => %s | %s", b2i(f.get), b2i(f.del), hx(t[:]), res, b44dumpStr(after))
+	where := fmt.Sprintf("case=%s op#%d Wrapper.Get target=%s faults=%s failed-calls=%s", c.name, c.nop, hx(t[:]), f, hits)
+	c.faultGetOracles(t, it, before, after, where, hits)
+}
+
+func (c *b44case) faultGetOracles(t [20]byte, it *bep44.Item, before, after []bep44.VerifEntry, where, hits string) {
+	if hits == "" || it != nil {
+		c.getOracles(t, it, before, after, where)
+		return
+	}
+	// the get could not read (or not delete): serving nothing is legitimate, deleting a fresh item is not
+	expMin := int64(b44Exp / time.Minute)
+	for i := range before {
+		if b44find(after, before[i].Target) == nil && b44vage(before[i].Created) < expMin {
+			c.e.fire("C13", "fresh-item-deleted-by-get:store-fault", "%s deleted=%s", where, hx(before[i].Target[:]))
+		}
+	}
+	c.seqDecreased(before, after, "seq-decreased:store-fault", where)
+	c.storeOracle(after, where)
+}
+
+var b44PutFaults = []b44fault{{get: true}, {put: true}, {get: true, put: true}}
+
+func (e *b44env) sequentialFaults() {
+	salt := []byte("f")
+	v0, v1 := "v", "w"
+	// a put over a stored item while the read, the write or both fail; then the same put over the
+	// healthy store: the fault must not have let anything through, nor have lost the stored item
+	cas2s := []int64{0, 2}
+	if e.thorough() {
+		cas2s = b44Grid
+	}
+	n := 0
+	for _, seq1 := range b44Grid {
+		for _, seq2 := range b44Grid {
+			for _, cas2 := range cas2s {
+				for _, sameV := range []bool{true, false} {
+					for _, f := range b44PutFaults {
+						a := e.mk(v0, 0, salt, seq1, 0)
+						v := v0
+						if !sameV {
+							v = v1
+						}
+						b := e.mk(v, 0, salt, seq2, cas2)
+						c := e.begin(fmt.Sprintf("fgrid%d", n), []*b44it{a, b})
+						n++
+						c.put(a)
+						c.fput(b, f)
+						c.get(a.refTarget())
+						c.put(b)
+						c.get(a.refTarget())
+						c.end()
+					}
+				}
+			}
+		}
+	}
+	// first put into an empty slot (mutable, immutable), rejected items (the fault is then never reached)
+	firsts := []*b44it{e.mk(v0, 0, salt, 1, 0), e.mk(v0, 0, nil, math.MinInt64, 0), e.mk(v0, 0, salt, math.MaxInt64, 5),
+		e.mk("immutable", -1, nil, 0, 0), e.variants(v0, salt, 4)[2], e.mk(b44sized(1001, 1), 0, salt, 1, 0),
+		e.mk(v0, 0, e.r.bytes(65), 1, 0)}
+	for i, x := range firsts {
+		for j, f := range b44PutFaults {
+			c := e.begin(fmt.Sprintf("ffirst%d-%d", i, j), []*b44it{x})
+			c.fput(x, f)
+			c.get(x.refTarget())
+			c.fput(x, b44fault{del: true}) // Wrapper.Put never calls Del: an ordinary put
+			c.fget(x.refTarget(), b44fault{put: true})
+			c.fput(x, f)
+			c.end()
+		}
+	}
+	// gets: a failing read serves nothing and deletes nothing; a failing delete keeps the expired item
+	// (still not served); afterwards the healthy get behaves as if nothing had happened
+	getFaults := []b44fault{{get: true}, {del: true}, {get: true, del: true}}
+	for i, d := range []time.Duration{0, 119 * time.Minute, 120 * time.Minute, 121 * time.Minute} {
+		for j, f := range getFaults {
+			a := e.mk(v0, 0, salt, 3, 0)
+			b := e.mk(v1, 0, salt, 2, 0)
+			c := e.begin(fmt.Sprintf("fget%d-%d", i, j), []*b44it{a, b})
+			c.put(a)
+			c.age(d)
+			c.fget(a.refTarget(), f)
+			c.fput(b, b44fault{get: true}) // a stale put during a read fault, also over an expired item
+			c.fget(a.refTarget(), f)
+			c.get(a.refTarget())
+			c.put(b) // 302 while the item lives, accepted once the get has expired it
+			c.get(a.refTarget())
+			c.end()
+		}
+	}
+	// random histories over several targets: every operation is hit by faults with probability 1/2
+	cnt := 120
+	if e.thorough() {
+		cnt = 3000
+	}
+	for h := 0; h < cnt; h++ {
+		r := e.r.sub(3000 + h)
+		type slot struct {
+			key  int
+			salt []byte
+		}
+		slots := []slot{{0, nil}, {0, []byte("f")}, {1, []byte("f")}, {-1, nil}}
+		var ops []func(c *b44case)
+		var items []*b44it
+		var targets [][20]byte
+		ln := 4 + r.intn(9)
+		for j := 0; j < ln; j++ {
+			var f b44fault
+			if r.bool() {
+				f = b44fault{get: r.bool(), put: r.bool(), del: r.bool()}
+			}
+			switch k := r.intn(10); {
+			case k < 6:
+				sl := slots[r.intn(len(slots))]
+				var v interface{} = []interface{}{"v", int64(r.intn(3))}
+				if r.intn(15) == 0 {
+					v = b44sized(1001+r.intn(3), r.intn(4))
+				}
+				seq := []int64{0, 1, 2, 3, 4, -1, math.MaxInt64, math.MinInt64, math.MinInt64 + 1, math.MaxInt64 - 1}[r.intn(10)]
+				cas := []int64{0, 0, 0, 1, 2, 3, -1, math.MaxInt64, math.MinInt64}[r.intn(9)]
+				x := e.mk(v, sl.key, sl.salt, seq, cas)
+				if sl.key >= 0 && r.intn(8) == 0 {
+					vs := e.variants(v, sl.salt, seq)
+					x = vs[1+r.intn(6)]
+					x.cas = cas
+				}
+				items = append(items, x)
+				targets = append(targets, x.refTarget())
+				ops = append(ops, func(c *b44case) {
+					if f.any() {
+						c.fput(x, f)
+					} else {
+						c.put(x)
+					}
+				})
+			case k < 9:
+				if len(targets) == 0 {
+					continue
+				}
+				t := targets[r.intn(len(targets))]
+				ops = append(ops, func(c *b44case) {
+					if f.any() {
+						c.fget(t, f)
+					} else {
+						c.get(t)
+					}
+				})
+			default:
+				d := []time.Duration{1, 30, 60, 90, 119, 120, 121}[r.intn(7)] * time.Minute
+				ops = append(ops, func(c *b44case) { c.age(d) })
+			}
+		}
+		c := e.begin(fmt.Sprintf("fhist%d", h), items)
+		for _, op := range ops {
+			op(c)
+		}
+		c.end()
+	}
 }
 
 // ---------------------------------------------------------------- (b) sequential histories
@@ -1233,7 +1519,10 @@ func (v *b44srv) token() string {
 }
 
 // inbound put with a fresh valid token; withSeq=false leaves the seq argument out
-func (v *b44srv) wput(x *b44it, withSeq bool) {
+func (v *b44srv) wput(x *b44it, withSeq bool) { v.wputF(x, withSeq, b44fault{}) }
+
+// ... while the store calls named by f fail (the token is fetched before the fault window opens)
+func (v *b44srv) wputF(x *b44it, withSeq bool, f b44fault) {
 	v.c.nop++
 	tok := v.token()
 	before := bep44.VerifDump(v.c.mem)
@@ -1243,7 +1532,9 @@ func (v *b44srv) wput(x *b44it, withSeq bool) {
 		a.Seq = &x.seq
 		seqs = strconv.FormatInt(x.seq, 10)
 	}
+	v.c.ys.arm(f)
 	m := v.query("put", a)
+	hits := v.c.ys.disarm()
 	after := bep44.VerifDump(v.c.mem)
 	res := "noreply"
 	got := "noreply"
@@ -1253,21 +1544,30 @@ func (v *b44srv) wput(x *b44it, withSeq bool) {
 		res = fmt.Sprintf("error %d", m.E.Code)
 		got = strconv.Itoa(m.E.Code)
 	}
-	emit("b44wput %s %s %s %s %d %s => %s | %s", hx(x.bv), hx(x.k[:]), hx(x.salt), hx(x.sig[:]), x.cas, seqs, res, b44dumpStr(after))
 	where := fmt.Sprintf("op#%d inbound put", v.c.nop)
+	if f.any() {
+		emit("b44fwput %d %d %s %s %s %s %d %s => %s | %s", b2i(f.get), b2i(f.put), hx(x.bv), hx(x.k[:]), hx(x.salt), hx(x.sig[:]), x.cas, seqs, res, b44dumpStr(after))
+		where += " faults=" + f.String()
+	} else {
+		emit("b44wput %s %s %s %s %d %s => %s | %s", hx(x.bv), hx(x.k[:]), hx(x.salt), hx(x.sig[:]), x.cas, seqs, res, b44dumpStr(after))
+	}
 	if !withSeq {
 		if !b44sameDump(before, after) {
 			v.c.e.fire("C12", "rejected-put-changed-store:no-seq", "case=%s %s item=%s", v.c.name, where, x.brief())
 		}
 		return
 	}
-	v.c.putOracles(x, got, before, after, where)
+	v.c.faultPutOracles(x, got, before, after, where, hits)
 }
 
-func (v *b44srv) wget(t [20]byte, seq *int64) {
+func (v *b44srv) wget(t [20]byte, seq *int64) { v.wgetF(t, seq, b44fault{}) }
+
+func (v *b44srv) wgetF(t [20]byte, seq *int64, f b44fault) {
 	v.c.nop++
 	before := bep44.VerifDump(v.c.mem)
+	v.c.ys.arm(f)
 	m := v.query("get", &krpc.MsgArgs{Target: krpc.ID(t), Seq: seq})
+	hits := v.c.ys.disarm()
 	after := bep44.VerifDump(v.c.mem)
 	seqs := "-"
 	if seq != nil {
@@ -1295,14 +1595,20 @@ func (v *b44srv) wget(t [20]byte, seq *int64) {
 			}
 		} else {
 			res = fmt.Sprintf("seq=%s - - -", rs)
-			if st != nil && b44vage(st.Created) < expMin && (seq == nil || st.Item.Seq > *seq) {
+			if hits == "" && st != nil && b44vage(st.Created) < expMin && (seq == nil || st.Item.Seq > *seq) {
 				v.c.e.fire("C13", "get-seq-gate:value-withheld-though-newer", "%s stored-seq=%d", where, st.Item.Seq)
 			}
 		}
 	} else if m != nil && m.Y == "e" && m.E != nil {
 		res = fmt.Sprintf("error %d", m.E.Code)
 	}
-	emit("b44wget %s %s => %s | %s", hx(t[:]), seqs, res, b44dumpStr(after))
+	if f.any() {
+		emit("b44fwget %d %d %s %s => %s | %s", b2i(f.get), b2i(f.del), hx(t[:]), seqs, res, b44dumpStr(after))
+		where += " faults=" + f.String() + " failed-calls=" + hits
+		v.c.seqDecreased(before, after, "seq-decreased:store-fault", where)
+	} else {
+		emit("b44wget %s %s => %s | %s", hx(t[:]), seqs, res, b44dumpStr(after))
+	}
 	for i := range before {
 		if b44find(after, before[i].Target) == nil && b44vage(before[i].Created) < expMin {
 			v.c.e.fire("C13", "fresh-item-deleted-by-get:sequential", "%s", where)
@@ -1311,9 +1617,12 @@ func (v *b44srv) wget(t [20]byte, seq *int64) {
 }
 
 // Server.Put: the local store first, the query only when it accepted
-func (v *b44srv) lput(x *b44it) {
+func (v *b44srv) lput(x *b44it) { v.lputF(x, b44fault{}) }
+
+func (v *b44srv) lputF(x *b44it, f b44fault) {
 	v.c.nop++
 	before := bep44.VerifDump(v.c.mem)
+	v.c.ys.arm(f)
 	p := bep44.Put{V: x.v, Salt: x.salt, Sig: x.sig, Cas: x.cas, Seq: x.seq}
 	ks := "-"
 	if x.mutable() {
@@ -1356,9 +1665,16 @@ func (v *b44srv) lput(x *b44it) {
 		}
 		res = fmt.Sprintf("query %s %s %s %s %d %s", hx(bencode.MustMarshal(q.A.V)), hx(q.A.K[:]), hx(q.A.Salt), hx(q.A.Sig[:]), q.A.Cas, sq)
 	}
+	hits := v.c.ys.disarm()
 	after := bep44.VerifDump(v.c.mem)
-	emit("b44lput %s %s %s %s %d %d => %s | %s", hx(x.bv), ks, hx(x.salt), hx(x.sig[:]), x.cas, x.seq, res, b44dumpStr(after))
-	v.c.putOracles(x, got, before, after, fmt.Sprintf("op#%d Server.Put", v.c.nop))
+	where := fmt.Sprintf("op#%d Server.Put", v.c.nop)
+	if f.any() {
+		emit("b44flput %d %d %s %s %s %s %d %d => %s | %s", b2i(f.get), b2i(f.put), hx(x.bv), ks, hx(x.salt), hx(x.sig[:]), x.cas, x.seq, res, b44dumpStr(after))
+		where += " faults=" + f.String()
+	} else {
+		emit("b44lput %s %s %s %s %d %d => %s | %s", hx(x.bv), ks, hx(x.salt), hx(x.sig[:]), x.cas, x.seq, res, b44dumpStr(after))
+	}
+	v.c.faultPutOracles(x, got, before, after, where, hits)
 }
 
 func (e *b44env) server() {
@@ -1403,6 +1719,8 @@ func (e *b44env) server() {
 		v.wget(tgt, nil)
 		v.close()
 	}
+	e.serverExtremes()
+	e.serverFaults()
 	cnt := 25
 	if e.thorough() {
 		cnt = 400
@@ -1411,31 +1729,50 @@ func (e *b44env) server() {
 		r := e.r.sub(5000 + h)
 		var ops []func(v *b44srv)
 		var items []*b44it
-		tgt := e.mk("v", 0, salt, 0, 0).refTarget()
+		// odd histories draw the stored seq and the seq named by a get from the extremes of int64 as
+		// well; one history in three is run over a store whose calls fail now and then
+		extreme := h%2 == 1
+		faulty := h%3 == 2
+		salts := [][]byte{salt}
+		if extreme {
+			salts = append(salts, []byte("t")) // a slot stuck at MaxInt64 must not end the history
+		}
+		pick := func(small []int64) int64 {
+			if extreme && r.intn(2) == 0 {
+				return b44Extremes[r.intn(len(b44Extremes))]
+			}
+			return small[r.intn(len(small))]
+		}
 		for j := 0; j < 4+r.intn(6); j++ {
+			var f b44fault
+			if faulty && r.intn(3) == 0 {
+				f = [...]b44fault{{get: true}, {put: true}, {del: true}, {get: true, put: true, del: true}}[r.intn(4)]
+			}
+			sa := salts[r.intn(len(salts))]
 			switch k := r.intn(10); {
 			case k < 5:
-				seq := int64(r.intn(5))
-				cas := []int64{0, 0, 1, 2, 3}[r.intn(5)]
-				x := e.mk(fmt.Sprintf("v%d", r.intn(2)), 0, salt, seq, cas)
+				seq := pick([]int64{0, 1, 2, 3, 4})
+				cas := pick([]int64{0, 0, 1, 2, 3})
+				x := e.mk(fmt.Sprintf("v%d", r.intn(2)), 0, sa, seq, cas)
 				if r.intn(7) == 0 {
-					x = e.variants("f", salt, seq)[1+r.intn(6)]
+					x = e.variants("f", sa, seq)[1+r.intn(6)]
 				}
 				items = append(items, x)
 				local, noseq := r.intn(4) == 0, r.intn(9) == 0
 				ops = append(ops, func(v *b44srv) {
 					if local {
-						v.lput(x)
+						v.lputF(x, f)
 					} else {
-						v.wput(x, !noseq)
+						v.wputF(x, !noseq, f)
 					}
 				})
 			case k < 9:
 				var sq *int64
 				if r.bool() {
-					sq = i64(int64(r.intn(5)) - 1)
+					sq = i64(pick([]int64{-1, 0, 1, 2, 3}))
 				}
-				ops = append(ops, func(v *b44srv) { v.wget(tgt, sq) })
+				tgt := e.mk("v", 0, sa, 0, 0).refTarget()
+				ops = append(ops, func(v *b44srv) { v.wgetF(tgt, sq, f) })
 			default:
 				d := []time.Duration{30, 119, 120, 121}[r.intn(4)] * time.Minute
 				ops = append(ops, func(v *b44srv) { v.c.age(d) })
@@ -1445,6 +1782,125 @@ func (e *b44env) server() {
 		for _, op := range ops {
 			op(v)
 		}
+		v.close()
+	}
+}
+
+// the ends of the int64 range and their neighbours, and the values around zero
+var b44Extremes = []int64{math.MinInt64, math.MinInt64 + 1, -1, 0, 1, math.MaxInt64 - 1, math.MaxInt64}
+
+// (d) at the extremes: an item stored (inbound put / Server.Put) with each extreme seq is returned by a
+// get that names no seq, and by a get naming seq n exactly when the stored seq is greater than n
+func (e *b44env) serverExtremes() {
+	i64 := func(x int64) *int64 { return &x }
+	for i, sseq := range b44Extremes {
+		for _, local := range []bool{false, true} {
+			salt := []byte(fmt.Sprintf("x%d", i))
+			x := e.mk("extreme", 0, salt, sseq, 0)
+			items := []*b44it{x}
+			var ups []*b44it
+			// a follow-up at the next seq with the CAS naming the stored one, and a stale one below
+			if sseq < math.MaxInt64 {
+				ups = append(ups, e.mk("next", 0, salt, sseq+1, sseq))
+			}
+			if sseq > math.MinInt64 {
+				ups = append(ups, e.mk("stale", 0, salt, sseq-1, 0))
+			}
+			ups = append(ups, e.mk("wrong-cas", 0, salt, math.MaxInt64, 7))
+			items = append(items, ups...)
+			v := e.beginServer(fmt.Sprintf("srv-extreme%d-%s", i, map[bool]string{false: "wire", true: "local"}[local]), items)
+			tgt := x.refTarget()
+			v.wget(tgt, nil)
+			if local {
+				v.lput(x)
+			} else {
+				v.wput(x, true)
+			}
+			v.wget(tgt, nil)
+			for _, n := range b44Extremes {
+				v.wget(tgt, i64(n))
+			}
+			if sseq > math.MinInt64 {
+				v.wget(tgt, i64(sseq-1))
+			}
+			if sseq < math.MaxInt64 {
+				v.wget(tgt, i64(sseq+1))
+			}
+			v.wget(tgt, i64(sseq))
+			for _, u := range ups {
+				if local {
+					v.wput(u, true)
+				} else {
+					v.lput(u)
+				}
+				v.wget(tgt, nil)
+				v.wget(tgt, i64(sseq))
+			}
+			v.c.age(121 * time.Minute)
+			v.wget(tgt, i64(math.MinInt64))
+			v.wget(tgt, nil)
+			v.close()
+		}
+	}
+}
+
+// (d) over a failing store: inbound put / get and Server.Put while the read, the write or the delete of
+// the underlying store fails.  A put that met a fault is answered with an error (Server.Put: returns
+// the error, sends no query) and the store keeps what it held; afterwards everything works again.
+func (e *b44env) serverFaults() {
+	i64 := func(x int64) *int64 { return &x }
+	salt := []byte("sf")
+	n := 0
+	for _, f := range b44PutFaults {
+		for _, local := range []bool{false, true} {
+			// stored seq 5; puts below (3), equal with another value (5), above (6), above with a wrong CAS
+			base := e.mk("five", 0, salt, 5, 0)
+			ins := []*b44it{e.mk("three", 0, salt, 3, 0), e.mk("other five", 0, salt, 5, 0), e.mk("five", 0, salt, 5, 0),
+				e.mk("six", 0, salt, 6, 5), e.mk("seven", 0, salt, 7, 1), e.mk("imm", -1, nil, 0, 0),
+				e.variants("forged", salt, 9)[2]}
+			v := e.beginServer(fmt.Sprintf("srv-fault%d", n), append([]*b44it{base}, ins...))
+			n++
+			tgt := base.refTarget()
+			put := func(x *b44it, f b44fault) {
+				if local {
+					v.lputF(x, f)
+				} else {
+					v.wputF(x, true, f)
+				}
+			}
+			put(base, f) // into the empty store: refused as well
+			v.wget(tgt, nil)
+			put(base, b44fault{})
+			for _, x := range ins {
+				put(x, f)
+				v.wget(tgt, nil)
+			}
+			v.wputF(base, false, f) // no seq: 203 before the store is consulted
+			for _, x := range ins {
+				put(x, b44fault{})
+				v.wget(tgt, i64(5))
+			}
+			v.close()
+		}
+	}
+	for i, f := range []b44fault{{get: true}, {del: true}, {get: true, del: true}, {put: true}} {
+		a := e.mk("v", 0, salt, 3, 0)
+		b := e.mk("w", 0, salt, 2, 0)
+		v := e.beginServer(fmt.Sprintf("srv-fault-get%d", i), []*b44it{a, b})
+		tgt := a.refTarget()
+		v.wgetF(tgt, nil, f)
+		v.wput(a, true)
+		v.wgetF(tgt, nil, f)
+		v.wgetF(tgt, i64(2), f)
+		v.wgetF(tgt, i64(3), f)
+		v.wget(tgt, nil)
+		v.c.age(121 * time.Minute)
+		v.wgetF(tgt, nil, f) // a failing delete keeps the expired item, which is still not served
+		v.wputF(b, true, b44fault{get: true})
+		v.wgetF(tgt, i64(0), f)
+		v.wget(tgt, nil)
+		v.wput(b, true)
+		v.wget(tgt, nil)
 		v.close()
 	}
 }
